@@ -22,7 +22,7 @@ MSDAY = 86400000
 NONE = [9, 0, 0, 0]
 ACTIVE = [0, 0, 0, 0]
 
-FILE_NAMES = ["app.log", "app.log", "app.log", "app", "my.app.log", "a+b(1).log", "srv[2].txt", "x.y.z"]
+FILE_NAMES = ["app.log", "app.log", "app.log", "app", "my.app.log", "a+b(1).log", "srv[2].txt", "x.y.z", ".app.log", ".hidden"]
 FOREIGN_TEMPLATES = ["{b}.2024-05-11.1.{s}.bak", "{b}2.2024-05-11.1.{s}", "{b}x2024-05-11.1.{s}", "{b}.2024-5-11.1.{s}",
                      "{b}.2024-05-11.x.{s}", "{b}.2024-05-11.1.{s}.gz.tmp", "{b}.{s}.1", "other.txt",
                      "{b}.2024-05-11.{s}", "X{b}.2024-05-11.2.{s}"]
